@@ -16,7 +16,17 @@ void calls_hook(bool in, K kind, const char* name, const void* ptr, void* state)
 #define RLBOX_TRANSITION_ACTION_IN(kind, name, ptr, state) calls_hook(true, kind, name, ptr, state)
 #define RLBOX_TRANSITION_ACTION_OUT(kind, name, ptr, state) calls_hook(false, kind, name, ptr, state)
 
-#ifdef CALLS_NOOP
+#ifdef CALLS_DYLIB
+#  define private public
+#  define protected public
+#  include "rlbox_dylib_sandbox.hpp"
+#  undef private
+#  undef protected
+#  include "rlbox.hpp"
+using Sbx = rlbox::rlbox_dylib_sandbox;
+using A = long;
+using GA = long;
+#elif defined(CALLS_NOOP)
 #  define RLBOX_USE_STATIC_CALLS() calls_static_lookup
 #  define calls_static_lookup(f) reinterpret_cast<void*>(&guest_##f)
 #  define private public
@@ -80,7 +90,9 @@ static int sb_index_of(const void* impl_or_sandbox)
 
 static int current_guest_sandbox()
 {
-#ifdef CALLS_NOOP
+#ifdef CALLS_DYLIB
+  return sb_index_of(Sbx::thread_data.sandbox);
+#elif defined(CALLS_NOOP)
 #  ifdef RLBOX_EMBEDDER_PROVIDES_TLS_STATIC_VARIABLES
   return sb_index_of(rlbox::get_rlbox_noop_sandbox_thread_data()->sandbox);
 #  else
@@ -162,11 +174,14 @@ using owner_v = rlbox::sandbox_callback<void (*)(A, A), Sbx>;
 
 // ---- guest side ----
 // per sandbox and slot: what the guest was told is there (entry value + signature)
+#if defined(CALLS_NOOP) || defined(CALLS_DYLIB)
+#  define CALLS_HOST_TRAMPOLINES
+#endif
 struct Entry
 {
   bool issued = false;
   bool is_void = false;
-#ifdef CALLS_NOOP
+#ifdef CALLS_HOST_TRAMPOLINES
   void* tramp = nullptr;
 #endif
 };
@@ -192,7 +207,7 @@ static GA guest_body(int fnid, GA idx, GA v)
       throw std::runtime_error("GUEST-TRAP: dead entry point");
     }
     bool isv = g_entry[me][slot].is_void;
-#ifdef CALLS_NOOP
+#ifdef CALLS_HOST_TRAMPOLINES
     void* tr = g_entry[me][slot].tramp;
     if (isv) {
       reinterpret_cast<void (*)(GA, GA)>(tr)((GA)k, (GA)kid.arg);
@@ -216,7 +231,14 @@ static GA guest_body(int fnid, GA idx, GA v)
 }
 template<int LIB> static GA lib_g0(GA idx, GA v) { return guest_body<LIB, false>(0, idx, v); }
 template<int LIB> static void lib_g1(GA idx, GA v) { guest_body<LIB, true>(1, idx, v); }
-#ifdef CALLS_NOOP
+#ifdef CALLS_DYLIB
+// called by the functions of the shared libraries (calls_guestlib.cpp)
+extern "C" long calls_guest_body(int lib, int fnid, long idx, long v)
+{
+  if (lib == 0) return fnid == 0 ? guest_body<0, false>(0, idx, v) : guest_body<0, true>(1, idx, v);
+  return fnid == 0 ? guest_body<1, false>(0, idx, v) : guest_body<1, true>(1, idx, v);
+}
+#elif defined(CALLS_NOOP)
 static GA guest_g0(GA idx, GA v) { return lib_g0<0>(idx, v); }
 static void guest_g1(GA idx, GA v) { lib_g1<0>(idx, v); }
 #else
@@ -264,7 +286,7 @@ static void do_register(int s)
     if (impl->callback_unique_keys[i] == key) {
       g_entry[s][i].issued = true;
       g_entry[s][i].is_void = (F % 2 == 1);
-#ifdef CALLS_NOOP
+#ifdef CALLS_HOST_TRAMPOLINES
       if constexpr (F % 2 == 0) g_entry[s][i].tramp = g_own_r[s][F].UNSAFE_sandboxed(sb);
       else g_entry[s][i].tramp = g_own_v[s][F].UNSAFE_sandboxed(sb);
 #endif
@@ -309,7 +331,13 @@ static std::string run_case(const toks_t& t)
   for (auto& row : g_entry) for (auto& e : row) e = Entry{};
   for (int i = 0; i < NSB; i++) {
     g_sb[i] = std::make_unique<sandbox_t>();
-#ifdef CALLS_NOOP
+#ifdef CALLS_DYLIB
+    {
+      const char* dir = std::getenv("VERIF_LIBDIR");
+      std::string path = std::string(dir ? dir : ".") + "/libcalls" + std::to_string(i % 2) + ".so";
+      g_sb[i]->create_sandbox(path.c_str());
+    }
+#elif defined(CALLS_NOOP)
     g_sb[i]->create_sandbox();
 #else
     g_sb[i]->create_sandbox(i % 2 == 0 ? &g_lib0 : &g_lib1, false);
